@@ -37,6 +37,16 @@ def _check_value(v, rng, R, ndecor):
         R.case(('str', v), nontrivial)
         R.violation('cat:roundtrip', f'str() raised {e!r}', {'value': refcat.ref_print(v)})
         return
+    # the same value built from fresh (equal, not identical) default objects, and a deep copy, must print the same text
+    import copy
+    for other in (_rebuild_fresh(v), copy.deepcopy(real)):
+        R.count('print:fresh-or-copied-objects')
+        try:
+            if str(other) != text or not (other == real):
+                R.violation('cat:roundtrip', f'an equal value built from fresh objects / a deep copy prints {str(other)!r}, not {text!r}',
+                            {'value': refcat.ref_print(v)})
+        except Exception as e:
+            R.violation('cat:roundtrip', f'str() of a rebuilt/copied value raised {e!r}', {'value': refcat.ref_print(v)})
     texts = [text] + [refcat.decorate(v, rng) for _ in range(ndecor)]
     for i, t in enumerate(texts):
         R.case(t, nontrivial)
@@ -65,6 +75,18 @@ def _check_value(v, rng, R, ndecor):
                 R.count('rejected')
                 continue
             R.violation('cat:ambiguous-accepted', f'{t!r} was read as {got!s}', {'text': t, 'got': str(got)})
+
+
+def _rebuild_fresh(v):
+    from depccg.cat import Atom, Functor, UnaryFeature, TernaryFeature
+    if v[0] == 'A':
+        f = v[2]
+        if f is None:
+            return Atom(v[1], UnaryFeature())           # a new default-feature object, not the shared default instance
+        if f[0] == 'U':
+            return Atom(v[1], UnaryFeature(f[1]))
+        return Atom(v[1], TernaryFeature(*[tuple(kv) for kv in f[1]]))
+    return Functor(_rebuild_fresh(v[1]), v[2], _rebuild_fresh(v[3]))
 
 
 def _drop_brackets(text):
@@ -136,8 +158,9 @@ def run(spec, R):
                     continue
                 try:
                     ref = refcat.ref_parse(s)
-                except refcat.RefSyntaxError:
-                    R.count('shipped-out-of-domain')
+                except refcat.RefSyntaxError as e:
+                    R.violation('data:unparseable-string', f'{src}: shipped string {s!r} is not a well-formed category text ({e!r}); the '
+                                f'reader accepted it silently', {'source': src, 'text': s})
                     continue
                 printed = str(c)
                 if refcat.ref_parse(printed) != ref or Category.parse(printed) != c:
